@@ -387,11 +387,25 @@ class FakeResource:
             return getattr(self._real, name)
         raise EscapeError("resource.%s not routed" % name)
 
+    # the calling process's own limits (what a code path without prlimit(2) would have to use)
+    def getrlimit(self, res):
+        w = self._w
+        w.point("syscall:getrlimit", (res,), w.mypid)
+        return w.procs[w.mypid].rlimits.get(res, (1024, 4096))
+
+    def setrlimit(self, res, limits):
+        w = self._w
+        w.point("syscall:setrlimit", (res, limits), w.mypid)
+        w.effects.append(("prlimit", w.mypid, (res, tuple(limits)), w.procs[w.mypid].uid))
+        w.procs[w.mypid].rlimits[res] = tuple(limits)
+
     def prlimit(self, pid, res, limits=None):
         w = self._w
         pid = _c_int(pid)
         res = _c_int(res)
         w.point("syscall:prlimit", (pid, res, limits), pid if pid > 0 else None)
+        if getattr(w, "prlimit_enosys", False):
+            raise oserr(errno.ENOSYS)         # a kernel older than 2.6.36 / a seccomp filter: no prlimit(2)
         if limits is not None:
             limits = tuple(limits)
             if len(limits) != 2:
